@@ -57,22 +57,41 @@ def clause_eviction(prog, rep):
             n += 1
             after = f.reachable_from(m.t["to"]) if "to" in m.t else set()
             exports = [c for c in f.live_calls() if c.bb in after and export.call(c) and not K.is_mls_call(c, "merge_staged_commit", "merge_pending_commit")]
+            # the membership test after the merge: MlsGroup::is_active() (the group's own state).  The leaf at the own index
+            # (own_leaf()) is recognised too, but it is not evidence of membership: a member added by the same commit takes the slot
+            # the removal vacated (F24)
             leafs = [c for c in f.live_calls() if c.bb in after and c.name == "own_leaf" and last_seg(c.self_adt) == "MlsGroup"]
+            actives = [c for c in f.live_calls() if c.bb in after and c.name == "is_active" and last_seg(c.self_adt) == "MlsGroup"]
             inst = "MDK::process_message/MlsGroup::%s" % m.name
-            for e in exports:
-                ok = bool(leafs) and A.succ_dominated(f, e.bb, leafs)
-                rep.check(ok, "no-export-after-eviction", inst + "/export",
-                          "the new epoch's exporter secret is exported only on the own_leaf().is_some() side",
-                          "after the merge the exporter secret of the new epoch is exported/cached without checking that the local "
-                          "member is still in the group (own_leaf)", e.loc())
-            # None side: group becomes Inactive
-            ok_inactive = False
+            in_edges, out_edges = set(), set()
             for lf in leafs:
                 tests, _ = A.result_tests(f, {lf.dst[0]})
                 for w, oks in tests.items():
                     for s in f.succs()[w]:
-                        if s in oks:
-                            continue
+                        (in_edges if s in oks else out_edges).add((w, s))
+            act_in = set()
+            for ac in actives:
+                te = A.bool_true_edges(f, ac)
+                act_in |= te
+                for (w, sx) in te:
+                    out_edges |= set((w, s2) for s2 in f.succs()[w] if s2 != sx)
+            in_edges |= act_in
+            for e in exports:
+                ok = bool(in_edges) and e.bb not in A.reach_without_edges(f, 0, in_edges)
+                rep.check(ok, "no-export-after-eviction", inst + "/export",
+                          "the new epoch's exporter secret is exported only on the still-a-member side of the test made after the merge",
+                          "after the merge the exporter secret of the new epoch is exported/cached without checking that the local "
+                          "member is still in the group", e.loc())
+                rep.check(bool(act_in) and e.bb not in A.reach_without_edges(f, 0, act_in), "no-export-after-eviction", inst + "/membership-test",
+                          "membership after the merge is read from the MLS group's own state (MlsGroup::is_active)",
+                          "whether the local member was removed is decided from the leaf at its own index (own_leaf()): a commit that removes the "
+                          "member and adds another one puts the newcomer into the vacated slot, so the evicted client sees a leaf, skips the "
+                          "eviction handling and keeps the stored group Active", e.loc())
+            # evicted side: group becomes Inactive
+            ok_inactive = False
+            for _once in [0]:
+                for (w, s) in sorted(out_edges):
+                    for _s in [s]:
                         reg = f.reachable_from(s)
                         # what runs on that side and saves the group: called functions, and closures built there (`.map(|mut g| ..)`)
                         savers = [t for c in f.live_calls() if c.bb in reg and saveg.call(c) for t in prog.call_targets(c)]
